@@ -100,9 +100,16 @@ def check_case(chk, pid, case, model_runs, dtypes=((torch.float64, 0.0), (torch.
                 if not eq:
                     bad = (f".grad of leaf {t} after {call['entry']} is {grads.get(t)}, expected "
                            f"{None if exp[t] is None else [str(x) for x in exp[t]]}")
+                elif dtype == torch.float64:
+                    why = ajlib.agg_calls_ok(prog, call)
+                    if why:
+                        bad = f"{call['entry']}: {why}"
             if bad:
-                chk.violation(f"{pid} {bad} (chunk={call['k']}, {dtype})",
-                              {"kind": "call", "case": case, "call_index": ci, "dtype": str(dtype)})
+                structural = ": the aggregator was applied" in bad or ": the matrix handed" in bad
+                chk.violation(f"{pid} {'correspondence (model: A applied to the Jacobian): ' if structural else ''}{bad} "
+                              f"(chunk={call['k']}, {dtype})",
+                              {"kind": "call", "case": case, "call_index": ci, "dtype": str(dtype)},
+                              no_input=structural)
                 ok = False
                 break
         if not ok:
